@@ -64,6 +64,8 @@ pub struct GenCfg {
     pub tests: bool,
     /// finding feature: forward reference to a definition that shadows an outer definition of the same name
     pub shadow_forward_ref: bool,
+    /// generate loops / conditionals / macro calls more often
+    pub constructs_boost: bool,
 }
 
 impl GenCfg {
@@ -82,10 +84,11 @@ impl GenCfg {
             setpc: true,
             text: true,
             zp_segment: true,
-            defs_in_loop: false,
+            defs_in_loop: true,
             setpc_in_relocated: true,
             tests: false,
             shadow_forward_ref: false,
+            constructs_boost: false,
         }
     }
     pub fn full() -> GenCfg {
@@ -344,7 +347,10 @@ impl<'e> Builder<'e> {
                 break;
             }
             self.budget -= 1;
-            let k = self.e.below(100);
+            let mut k = self.e.below(100);
+            if self.cfg.constructs_boost && self.e.chance(1, 4) {
+                k = 87 + self.e.below(9);
+            }
             let can_nest = depth < self.cfg.max_depth;
             let defs_ok = self.in_loop == 0 || self.cfg.defs_in_loop;
             let s = match k {
@@ -801,6 +807,10 @@ impl<'e> Pass2<'e> {
                 }
             }
             let mut paths = self.r.paths_to(scope, i);
+            if matches!(d.kind, DefKind::Index | DefKind::Param) {
+                // `index` and macro parameters are substituted textually by the hand expansion: bare names only
+                paths.retain(|p| p.len() == 1);
+            }
             if d.order > here {
                 // a forward reference whose first path component is also defined elsewhere binds differently
                 // from pass to pass (recorded finding): only generated when the feature is on
@@ -973,7 +983,8 @@ pub fn separate_ambiguous(body: &mut Vec<Stmt>) {
             Stmt::Label { block: None, .. } | Stmt::Segment { block: None, .. } | Stmt::Import { block: None, .. }
         );
         if takes_block && matches!(&body[i + 1], Stmt::Braces(_)) {
-            body.insert(i + 1, Stmt::Instr { mn: "nop".into(), form: Form::None, operand: None });
+            // a byte-free statement, so that expansions stay byte-identical
+            body.insert(i + 1, Stmt::Assert { e: Expr::num(1), msg: None });
         }
         i += 1;
     }
